@@ -28,7 +28,8 @@
       for the executable reference implementations; all clauses are evaluated on a table of
       boundary doubles in RoundTripEvidence.v (tests). *)
 From CJ Require Import Base Dbl Tree LibcNum LibcPrint Grammar ParseDefs ParseSpec ParseComplete
-  ParseListStrtod PrintDefs PrintStrict RoundTripNum RoundTrip RoundTripPrint RoundTripEvidence.
+  ParseListStrtod PrintDefs PrintStrict RoundTripNum RoundTripInt RoundTrip RoundTripPrint RoundTripRef
+  RoundTripEvidence.
 Local Open Scope Z_scope.
 
 (** * One number through print_number and parse_number *)
@@ -53,6 +54,19 @@ Print Assumptions C04_number.
 Theorem C04_sat_int_range : forall d, dbl_ok d -> int_range (sat_int d) = true.
 Proof. exact sat_int_range. Qed.
 Print Assumptions C04_sat_int_range.
+
+(** (double) z of an integer below 2^53 is exact: a well-formed finite double that truncates
+    back to z (closed form of SpecFloat's binary_normalize, no real numbers involved) *)
+Theorem C04_dbl_of_int_exact : forall z, Z.abs z < 2 ^ 53 ->
+  valid_dbl (dbl_of_int z) = true /\ is_finite (dbl_of_int z) = true /\ trunc_dbl (dbl_of_int z) = z.
+Proof. exact dbl_of_int_exact. Qed.
+Print Assumptions C04_dbl_of_int_exact.
+
+(** (int) (double) z = z for every C int, through the saturating conversion of parse_number /
+    cJSON_SetNumberHelper: a tree built with an int value satisfies valueint = sat_int valuedouble *)
+Theorem C04_sat_int_of_int : forall z, int_range z = true -> sat_int (dbl_of_int z) = z.
+Proof. exact sat_int_of_int. Qed.
+Print Assumptions C04_sat_int_of_int.
 
 (** * Print, then parse *)
 
@@ -198,6 +212,13 @@ Print Assumptions C04_print_parse_print.
 Theorem C04_ref_scan : forall t d, sscanf_lg t = Some d <-> exists k, strtod_ref t = Some (d, k).
 Proof. exact ref_scan. Qed.
 Print Assumptions C04_ref_scan.
+
+(** clause N2 holds for the executable reference implementations, with the consumed length:
+    strtod_ref reads the "%d" text of a C int completely, as exactly (double) of that int *)
+Theorem C04_ref_d : forall z, int_range z = true ->
+  strtod_ref (fmt_d z) = Some (dbl_of_int z, length (fmt_d z)).
+Proof. exact ref_d. Qed.
+Print Assumptions C04_ref_d.
 
 (** TEST (vm_compute, not a proof of the clauses): the whole cycle of [C04_number] evaluated
     with the reference implementations on the table of boundary doubles of RoundTripEvidence.v
